@@ -162,6 +162,7 @@ def check(ctx):
                 ps.append({"mods": {p0["main"]: s2}, "main": p0["main"], "features": ["query-named-like-path-variable"], "ast": None})
                 clash += 1
         ctx.count("query_named_like_path_variable", clash)
+        ps += progs.shared_corpus()
         for i in range(0, len(ps), 4):
             ps[i]["base"] = json.dumps(rand_base(ctx.rng, named_refs(ps[i])))
     progs.feature_stats(ctx, ps)
